@@ -156,3 +156,53 @@ def regenerate_reflects_edit(s, envmap):
         if int(system.chemostats[s * n + i]) != (1 if ENVS[envmap[i]] == "e1" else 0):
             return False
     return True
+
+
+def _edit(d, attr, how):
+    new = (3.25 if attr == "density" else (not bool(d.get("default", False))))
+    if how == 0:
+        if "default" in d:
+            d["default"] = new
+    elif how == 1:
+        if "default" in d:
+            del d["default"]
+        else:
+            d["default"] = new
+    else:
+        own = [k for k in d if k != "default"]
+        if own:
+            del d[own[0]]
+
+
+def regenerate_after_inplace_edit(s, envmap, how, graph):
+    """The species' per-environment dictionaries are edited IN PLACE after the defaults were generated (an existing 'default'
+    entry changed: how 0; a 'default' entry added or, where there is one, removed: how 1; an environment's own entry removed: how 2),
+    then the defaults are regenerated: they must equal those of a system built from PRISTINE species objects (never used in a
+    system) to which the same edit was applied - and generating the defaults must leave the dictionaries as they were written."""
+    envmap3 = [_E[e] for e in envmap]
+    vols = [8.0, 27.0, 1.0][:len(envmap3)]
+    system = graph_system(envmap3, vols) if graph else grid_system(len(envmap3), 1, 1, envmap3)
+    system.set_default_state()
+    system.set_default_chemostats()
+    pristine = network()
+    for q, p in zip(system.network.species, pristine.species):
+        for attr in ("density", "chstt"):
+            a, b = getattr(q, attr), getattr(p, attr)
+            if isinstance(b, dict) and sorted(a) != sorted(b):
+                return False                    # generating the defaults wrote into the species' dictionary
+    for attr in ("density", "chstt"):
+        d = getattr(system.network.species[s], attr)
+        if isinstance(d, dict):
+            _edit(d, attr, how)
+            _edit(getattr(pristine.species[s], attr), attr, how)
+    system.set_default_state()
+    system.set_default_chemostats()
+    if graph:
+        nodes = [N(volume=v, environment=e) for v, e in zip(vols, envmap3)]
+        space2 = RDGraphSpace(nodes=nodes, edges=[E(i, i + 1) for i in range(len(nodes) - 1)])
+    else:
+        space2 = RDGridSpace(w=len(envmap3), h=1, d=1, cell_env=list(envmap3), cell_vol=8.0)
+    fresh = RDSystem(pristine, space2)
+    a = [float(v) for v in system.state.value]
+    b = [float(v) for v in fresh.state.value]
+    return all(abs(x - y) <= 1e-12 * max(abs(x), abs(y)) for x, y in zip(a, b)) and len(a) == len(b) and [int(c) for c in system.chemostats] == [int(c) for c in fresh.chemostats]
